@@ -128,6 +128,18 @@ def chkLine (st : RibSt) (ts : List Tok) : RibSt :=
               -- passes where the plain one fails
               let st := if impl && plain.any (· == 0)
                 then st.monfail "c17" "HasResultsCache passed although HasResult fails for one of the wants" else st
+              -- … and, where the results' keys are unique (operation ids without IgnoreOperationID,
+              -- entry keys with it, every result carrying its key), it does not fail where the plain
+              -- one passes for every want
+              let keysUnique : Bool :=
+                if !ig then (res.map (·.opId)).eraseDups.length == res.length
+                else res.all (fun r => (r.details.bind dkey).isSome) &&
+                     (res.filterMap (fun r => r.details.bind dkey)).eraseDups.length == res.length
+              -- (with IgnoreOperationID a want has to name an entry: one without a key is a test
+              -- error, reported as such)
+              let wantsKeyed : Bool := !ig || wants.all (fun w => (w.details.bind dkey).isSome)
+              let st := if !impl && pan == "" && keysUnique && wantsKeyed && plain.all (· == 1) && plain.length == wants.length
+                then st.monfail "c17" "HasResultsCache reported a fatal failure although the results' keys are unique and HasResult passes for every want" else st
               verdict st c (hasResultsCache res wants o) impl pan
             | _, _, _, _, _ => bad st
           | _ => bad st
@@ -164,11 +176,11 @@ def chkLine (st : RibSt) (ts : List Tok) : RibSt :=
               -- needs a received error that carries a gRPC status with the wanted code
               let codeSeen := match e with
                 | .clientErr _ rs => rs.any (fun r => match r with
-                    | some s => s.code == want.code || (allow && s.code == Chk.unimplemented)
+                    | some s => (s.code == want.code && (want.msg == "" || s.msg == want.msg)) || (allow && s.code == Chk.unimplemented)
                     | none => false)
                 | _ => false
               let st := if impl && !codeSeen
-                then st.monfail "c17" s!"HasRecvClientErrorWithStatus passed although no received error carries a gRPC status with code {want.code}" else st
+                then st.monfail "c17" s!"HasRecvClientErrorWithStatus passed although no received error carries a gRPC status with code {want.code} (and the wanted message, where one is wanted)" else st
               -- and a sufficient one: a received status with the wanted code and message, and the
               -- wanted details unless IgnoreDetails was given, is the wanted status under every
               -- combination and order of the options
